@@ -41,7 +41,9 @@ def run(tier, seed, replay=None):
     inst = 2 if tier == "quick" else 6
     if replay:
         inst = 8
-    res = vlib.harness_json(vt, ["certs", "-vectors", vectors, "-seed", str(seed), "-instances", str(inst)], wd, timeout=3000)
+    cli_every = 2 if (tier == "quick" and not replay) else 1
+    res = vlib.harness_json(vt, ["certs", "-vectors", vectors, "-seed", str(seed), "-instances", str(inst), "-cli-every", str(cli_every)],
+                            wd, timeout=3000)
     if res.get("inconclusive"):
         raise vlib.Inconclusive("; ".join(res["inconclusive"][:5]))
     c = res["counters"]
@@ -59,9 +61,9 @@ def run(tier, seed, replay=None):
         "rule": "TLC enumerates the request shapes of CertNames.tla (%s; node-id byte lengths %s from the DER sub-model's boundaries +-1). Every shape is "
                 "concretised %d times with seeded strings of exactly the prescribed byte length and character class and pushed through CreateCertReq(WithKey) -> "
                 "GetReqNames -> SignCertReq -> x509 parse -> ReceptorNames -> ReceptorVerifyFunc for every candidate id (each requested id, prefix, extension, "
-                "case variant, neighbouring length, empty, DNS name, CN), and once through MakeReq/SignReq on files; the SAN bytes are re-read by an independent "
+                "case variant, neighbouring length, empty, DNS name, CN), and (every %s vector) once through MakeReq/SignReq on files; the SAN bytes are re-read by an independent "
                 "DER decoder and their sizes compared with the model; 'decode' vectors feed ReceptorNames with SANs made by an independent encoder. "
-                "distinct = distinct concrete requests (ids, DNS, IPs, key mode, window) plus decode vectors" % (cfg, lens, inst),
+                "distinct = distinct concrete requests (ids, DNS, IPs, key mode, window) plus decode vectors" % (cfg, lens, inst, "2nd" if cli_every == 2 else "single"),
         "samples": res["samples"][:12], "exhaustive": False,
         "states": r.distinct, "transitions": r.generated,
         "vectors": len(recs), "vectors_by_family": {f: c.get("vectors_" + f, 0) for f in ("ids", "names", "san", "decode")},
